@@ -266,7 +266,13 @@ def volume_shapes(p, rng):
     shapes = [("smooth", 0.02 + 0.3 * p / (1.15 - p), 0)]
     inc = numpy.where(numpy.arange(n - 1) % 3 == 1, 0.0, 0.01 + 0.02 * numpy.arange(n - 1) / n)
     shapes.append(("plateaus", numpy.concatenate([[0.05], 0.05 + numpy.cumsum(inc)]), 0))
-    for s in sorted(set([max(1, n // 4), n // 2, max(1, (3 * n) // 4), n - 1])):
+    if p[0] < 0.01:
+        # the grid that spans 1e-4 .. 0.999: condensation steps in its upper part only (below, widths are under a
+        # nanometre and the layer is thicker than the Kelvin radius - outside what a mesopore method resolves)
+        steps = [n - 5, n - 3, n - 1]
+    else:
+        steps = sorted(set([max(1, n // 4), n // 2, max(1, (3 * n) // 4), n - 1]))
+    for s in steps:
         v = numpy.where(numpy.arange(n) < s, 0.1, 0.45)
         shapes.append(("single step", v, s))          # step between points s and s+1 (1-based)
     return shapes
@@ -353,7 +359,7 @@ def observation_tier(run, judge, rng, thorough, seed):
                 iso = point_isotherm(p, V, adsorbate=name, temperature=T, loading_basis="volume_liquid", loading_unit="cm3", **store)
             else:
                 # a two-point adsorption ramp above the grid, then the desorption branch under test coming down
-                pp = numpy.concatenate([[p[0] * 0.5, 0.995], p[::-1]])
+                pp = numpy.concatenate([[p[0] * 0.5, (1 + p[-1]) / 2], p[::-1]])
                 VV = numpy.concatenate([[V[0], V[-1]], V[::-1]])
                 iso = point_isotherm(pp, VV, adsorbate=name, temperature=T, loading_basis="volume_liquid", loading_unit="cm3", **store)
             try:
